@@ -32,10 +32,6 @@ type DecoratorResolver struct {
 
 func (r *DecoratorResolver) ResolveIdent(file *ast.File, parent ast.Node, parentField string, id *ast.Ident) (string, error) {
 
-	if r.RestorerResolver == nil {
-		r.RestorerResolver = guess.New()
-	}
-
 	imports, err := r.imports(file)
 	if err != nil {
 		return "", err
@@ -67,6 +63,11 @@ func (r *DecoratorResolver) ResolveIdent(file *ast.File, parent ast.Node, parent
 func (r *DecoratorResolver) imports(file *ast.File) (map[string]string, error) {
 	r.filesM.Lock()
 	defer r.filesM.Unlock()
+
+	if r.RestorerResolver == nil {
+		// default the package name resolver under the lock: a DecoratorResolver may be shared
+		r.RestorerResolver = guess.New()
+	}
 
 	if r.files == nil {
 		r.files = map[*ast.File]map[string]string{}
